@@ -775,7 +775,7 @@ func (p *Prov) justify(s *Sink) string {
 	}
 	// J10: the in-place array walker returns its (fully overwritten) parameter
 	if s.Kind == "return" {
-		if _, isParam := v.(*ssa.Parameter); isParam && isAnySlice(v.Type()) && p.inPlaceSanitised(s.Fn, v) {
+		if _, isParam := v.(*ssa.Parameter); isParam && isAnySlice(v.Type()) && p.inPlaceSanitised(s.Fn, v, s.Instr.Block()) {
 			return "J10:in-place-overwritten"
 		}
 	}
